@@ -139,7 +139,7 @@ fn compare_seed(seed: u64, l: &[Option<&Line>; 4]) -> Option<(String, String)> {
 pub fn check(tier: Tier, opts: &CheckOpts) -> i32 {
     let base = base_seed_from_env();
     let runs = opts.runs.unwrap_or(match tier {
-        Tier::Quick => 20_000,
+        Tier::Quick => 60_000,
         Tier::Thorough => 600_000,
     });
     println!("zsim C18 tier={} VERIF_SEED={base} seeds={runs} x 4 builds", tier.name());
